@@ -68,7 +68,7 @@ def plan(tier, seed):
     q = tier == "quick"
     out = []
     for i in range(16):
-        out.append({"name": "hist%02d" % i, "n": 9 if q else 130, "maxrings": 5 if q else 7, "big": i % 4 == 0})
+        out.append({"name": "hist%02d" % i, "n": 12 if q else 120, "maxrings": 5 if q else 7, "big": i % 4 == 0})
     return out
 
 
@@ -680,7 +680,12 @@ def assign_params(rng, core, tag):
                 v = np.array([nice_float(rng) for _ in range(6)])
             else:  # pin-array
                 v = np.array([abs(nice_float(rng)) for _ in range(max(1, len(b.getPinLocations()) if b.spatialGrid is not None else 3))])
-            b.p[nme] = v
+            try:
+                b.p[nme] = v
+            except ValueError:  # a parameter whose setter validates its range (gasReleaseFraction, bondRemoved): refusal is fine
+                if _CTX["rec"] is not None:
+                    _CTX["rec"].reject("parameter setter refused the generated value")
+                break
             done.append((ij(a), k, nme, b.p[nme]))  # what armi stored (a setter may normalise the type)
     if rng.random() < .5:
         kinds.add("assembly-scalar")
@@ -799,6 +804,7 @@ class Case:
         self.ref = None            # observation of the last edge-free third-core state (+ own assignments)
         self.ref_derived = None
         self.added_by_convert = 0
+        self.composition_edited_in_edge_state = False
         self.noop_add_edge_pending = False  # an addEdgeAssemblies call added nothing and no assembly was added/removed since
 
     # -- bookkeeping
@@ -822,6 +828,7 @@ class Case:
         return obs(self.core, self.seen_names, self.seen_nums, self.meta["rings"])
 
     def take_ref(self):
+        self.composition_edited_in_edge_state = False  # only called in the edge-free third-core state
         self.ref = self.observe()
         self.ref_derived = derived(self.core, every_nuclide=False)
 
@@ -878,6 +885,7 @@ class Case:
         else:
             self.patch_ref(done)
             if n:  # composition edits in an edge state: re-observe the edited originals
+                self.composition_edited_in_edge_state = True
                 cur = self.observe()
                 for cell, ent in cur["assems"].items():
                     if cell in self.ref["assems"] and self.ref["assems"][cell].get("id") == ent.get("id"):
@@ -910,10 +918,18 @@ class Case:
         cu = self.cu
         pre_cells = {ij(a) for a in core}
         pre_nonedge = {c for c in pre_cells if line_of(*c, cu) != "120"}
+        self.last_pre_cells = pre_cells
         want_cells = self.cells.closure(pre_cells)
         ref = leaf_reference(core, cu)
         pre_obs = self.observe()
         own = {"mass": None}
+        if st == "third+edges":
+            # the third-core values of a model that carries its edge assemblies (both halves cut by the symmetry lines)
+            own = {"edge_derived": None, "upper_edge_cell_of_ring_3_occupied": (-1, 2) in pre_cells}
+            if self.composition_edited_in_edge_state:
+                rec.skip("x3 of getMass/getVolume of the edge-carrying third core: the harness edited the composition of an edge assembly or its duplicate apart, the two halves no longer describe one assembly")
+            else:
+                own["edge_derived"] = derived(core)
         if st == "third":
             own = {"derived": derived(core), "totals": armi_totals(core), "naive": naive_totals(core), "n": len(core)}
         if st == "third+edges":
@@ -1100,6 +1116,17 @@ class Case:
                 rec.violation("convert/mass-not-x3", "core.getMass(%s) %r after convert, %r before" % (bad[0], d["mass"].get(bad[0]), own["derived"]["mass"][bad[0]]), w)
             if not rc(d["massTotal"], 3 * own["derived"]["massTotal"], rel):
                 rec.violation("convert/mass-not-x3", "core.getMass() %r after convert, %r before" % (d["massTotal"], own["derived"]["massTotal"]), w)
+        if st == "third+edges" and own["edge_derived"] is not None:
+            e = own["edge_derived"]
+            offm = sorted(n for n in e["mass"] if not rc(d["mass"].get(n, 0.0), 3 * e["mass"][n], rel, 1e-30))
+            offv = not rc(d["volume"], 3 * e["volume"], rel)
+            if offm or offv:
+                # HexBlock.getSymmetryFactor recognises edge assemblies only by looking at cell (-1,2)
+                mech = "other" if own["upper_edge_cell_of_ring_3_occupied"] else "ring-3-edge-cell-empty"
+                rec.violation("convert/mass-volume-not-x3-of-edge-state/%s" % mech,
+                              "third core with edge assemblies: getVolume %r, after convert %r (ratio %.6f); getMass of %d nuclides off, e.g. %s: %r -> %r" % (
+                                  e["volume"], d["volume"], d["volume"] / e["volume"], len(offm), offm[:1], e["mass"].get(offm[0]) if offm else None, d["mass"].get(offm[0]) if offm else None),
+                              dict(w, edge_cells_before=sorted(c for c in self.last_pre_cells if line_of(c[0], c[1], self.cu) == "120")))
         # volume-integrated totals
         now_naive = naive_totals(core)
         now_armi = armi_totals(core)
@@ -1309,6 +1336,9 @@ def run_shard(spec, rec):
         case.grid_pitch = float(core.spatialGrid.pitch)  # the lattice constant the model was built with (input, not behaviour)
         if str(core.symmetry) != "third periodic" or core.isFullCore:
             rec.crash("build-reactor", RuntimeError("harness: generated core is not third periodic"), {"core": meta})
+            continue
+        if sorted(ij(a) for a in core) != [tuple(c) for c in meta["cells"]]:
+            rec.violation("precondition/built-core-cells-differ-from-blueprint", "blueprint cells %s, built core holds %s" % (meta["cells"], sorted(ij(a) for a in core)), {"core": meta})
             continue
         lookups_ok(core, rec, case.w(), "after build")
         independence(core, rec, case.w(), "build")
